@@ -51,7 +51,7 @@ CLAIMED = {
  'C18': ('Machine-checked theorems (Lean 4, reals) about an executable model of the fsr helpers: plane contains its three points; mirror negates exactly the local z coordinate of any frame '
          '(anywhere in space) and is an involution; midpoint has the mean position and its relative rotation squares to the total relative rotation (Rodrigues additivity); lookAt keeps the position and is a '
          'proper rotation with local z at the target (outside the vertical set); distance is the Euclidean metric; closeLinearGap advances by exactly |delta| along the line; IKPath has the requested length, '
-         'end points and constant increments; sphere samplers are unit; angleMod changes an angle by a multiple of 2pi. twistToGoal, closeArcGap, chain/numerical Jacobians and rotationFromVector are decided on the implementation only (sampled). '
+         'end points and constant increments; sphere samplers are unit; angleMod changes an angle by a multiple of 2pi. twistToGoal exponentiates onto the goal for every pair of rigid transforms whose relative rotation angle is 0 or in [1e-6, pi) (from exp6(log6 T) = T). The half-turn case of twistToGoal, closeArcGap, chain/numerical Jacobians and rotationFromVector are decided on the implementation only (sampled). '
          'Model tied by a differential run; every relation also evaluated on the real functions.',
          'Trusted: Lean kernel, Mathlib, harness generators; optimiser-based helpers not modelled; rounding outside.',
          'Lean 4 proofs on a hand-written model (sympy-found linear_combination certificates) + differential correspondence + on-function falsifier',
@@ -92,7 +92,7 @@ CLAIMED = {
          'DESIGN.md section 5 C07'),
  'C06': ('Partial proof: machine-checked theorems (Lean 4) for the algebraic clauses - column i of the space Jacobian model is Ad(prod_{k<i} exp([S_k]theta_k)) S_i for chains of any length, torque.rate = wrench.twist for every Jacobian, '
          'linearity of the transpose map in the wrench (link-mass term), with exp6 conjugation / chain base change from C05; and the derivative clause for the space Jacobian: d/dtheta of the library\'s own exponential is [S] times it outside the 1e-6 cut-off band '
-         '(entrywise HasDerivAt of the Rodrigues closed forms), hence d/dtheta_i FK(theta) = [J_space(theta) e_i] FK(theta) for chains of any length (product rule through conj_hat6). Inside the band, and for the body = Ad(inv T) space relation, the link / tool-aligned / numerical variants and the pseudo-inverse round trip, '
+         '(entrywise HasDerivAt of the Rodrigues closed forms), hence d/dtheta_i FK(theta) = [J_space(theta) e_i] FK(theta) for chains of any length (product rule through conj_hat6). and the body-frame clause: for the body screws B_k = Ad(inv M) S_k the library\'s JacobianBody column i equals Ad(inv FK) applied to column i of JacobianSpace, for chains of any length whose joints are exact (prismatic, at angle 0, or unit axis with |theta| >= 1e-6), from e^{-[S]theta} e^{[S]theta} = I and Ad(e^{[S]theta}) S = S. Inside the band, and for the link / tool-aligned / numerical variants and the pseudo-inverse round trip, '
          'the property is decided on the real Arm by Richardson-extrapolated central differences and NumPy references (labelled sampled); model Jacobians are compared with the Arm\'s on its stored screws.',
          'Trusted: Lean kernel, Mathlib (calculus of sin/cos), harness finite differences (steps >= 1e-4) and frame references.',
          'Lean 4 proofs (algebraic clauses; entrywise HasDerivAt for the derivative clause) + differential correspondence + finite-difference falsifier on the real Arm',
